@@ -99,6 +99,49 @@ pub fn gen_case(rng: &mut Rng, bottom: bool) -> Case {
     Case { w, h, hz, ops }
 }
 
+/// Structured histories around the zombie / stale-frame bookkeeping: a few bars (some two rows high) are
+/// drawn, the refresh limiter is (perhaps) exhausted, head bars finish, the frame is (perhaps) invalidated
+/// by clear / remove, a tick is (perhaps) skipped, finished bars are dropped, and text is printed.
+pub fn gen_scenario(rng: &mut Rng) -> Case {
+    let w = *rng.pick(&[6u16, 10, 14]);
+    let hz = *rng.pick(&[0u8, 1, 1, 1, 20]);
+    let nb = rng.range(2, 4) as usize;
+    let mut ops = vec![MOp::MpPrintln("L0".into()), MOp::MpPrintln("L1".into())];
+    for k in 0..nb {
+        let fin = match rng.below(4) { 0 => Fin::Clear, 1 => Fin::Msg(short(rng, w, true)), _ => Fin::Leave };
+        ops.push(MOp::Add { loc: 0, arg: 0, len: Some(10), tpl: *rng.pick(&[1usize, 3, 3]), prefix: format!("{}", (b'A' + k as u8) as char), fin });
+    }
+    for k in 0..nb { if rng.chance(4, 5) { ops.push(MOp::Bar(k, BOp::Tick)); } if rng.chance(1, 3) { ops.push(MOp::Bar(k, BOp::Msg(short(rng, w, true)))); } }
+    if hz != 0 && rng.chance(3, 4) { let k = rng.below(nb as u64) as usize; for _ in 0..rng.range(20, 26) { ops.push(MOp::Bar(k, BOp::Tick)); } }
+    let mut alive = vec![true; nb]; let mut member = vec![true; nb];
+    let nfin = rng.range(1, nb as u64) as usize;
+    let mut logn = 1;
+    let rounds = rng.range(1, 2);
+    for _ in 0..rounds {
+        // A: head bars finish (visibly or not), some get a taller message afterwards
+        for k in 0..nfin { if alive[k] && rng.chance(3, 4) {
+            ops.push(MOp::Bar(k, BOp::Finish(match rng.below(5) { 0 => Fin::Clear, 1 => Fin::Msg(short(rng, 2 * w, true)), 2 => Fin::Abandon, _ => Fin::Leave })));
+            if rng.chance(1, 3) { ops.push(MOp::Bar(k, BOp::Msg(short(rng, 2 * w, true)))); } } }
+        // B: the painted frame is invalidated, or not
+        match rng.below(5) { 0 | 1 => ops.push(MOp::MpClear), 2 => { let k = rng.below(nb as u64) as usize; if alive[k] && member[k] { member[k] = false; ops.push(MOp::Remove(k)); } } 3 => ops.push(MOp::MpSuspend(vec![])), _ => {} }
+        // C: an ordinary redraw request that the limiter may skip, or time passes
+        match rng.below(4) { 0 | 1 => { let j = rng.below(nb as u64) as usize; if alive[j] { ops.push(MOp::Bar(j, BOp::Tick)); } } 2 => ops.push(MOp::Adv(*rng.pick(&[1_000_000u64, 1_000_000_000]))), _ => {} }
+        // D: finished bars are dropped, in some order
+        let mut ks: Vec<usize> = (0..nfin).filter(|&k| alive[k]).collect();
+        if rng.chance(1, 2) { ks.reverse(); }
+        for k in ks { if rng.chance(4, 5) { alive[k] = false; ops.push(MOp::Bar(k, BOp::Drop)); } }
+        // E: text and further draws
+        for _ in 0..rng.range(1, 3) { match rng.below(4) {
+            0 | 1 => { logn += 1; ops.push(MOp::MpPrintln(format!("L{logn}"))); }
+            2 => { let j = rng.below(nb as u64) as usize; if alive[j] { logn += 1; ops.push(MOp::Bar(j, BOp::Println(format!("P{logn}")))); } }
+            _ => { let j = rng.below(nb as u64) as usize; if alive[j] { ops.push(MOp::Bar(j, BOp::Tick)); } } } }
+    }
+    logn += 1; ops.push(MOp::MpPrintln(format!("L{logn}")));
+    for k in 0..nb { if alive[k] && rng.chance(1, 2) { ops.push(MOp::Bar(k, BOp::Tick)); } }
+    if rng.chance(1, 2) { for k in 0..nb { if alive[k] { ops.push(MOp::Bar(k, BOp::Drop)); } } }
+    Case { w, h: 24, hz, ops }
+}
+
 pub fn encode(c: &Case) -> String {
     let mut s = format!("MULTI FX={} {} {} {} {}", crate::common::fx("draw"), c.w, c.h, c.hz, T0);
     for op in &c.ops { s.push_str(" ; "); s.push_str(&op.enc()); }
@@ -187,7 +230,7 @@ pub fn run_case(c: &Case) -> (String, String) {
                         BOp::Reset => { pb.reset(); info.hidden = false; }
                         BOp::Finish(f) => { match f { Fin::Leave => pb.finish(), Fin::Clear => pb.finish_and_clear(), Fin::Abandon => pb.abandon(), Fin::Msg(m) => pb.finish_with_message(m.clone()), Fin::AbandonMsg(m) => pb.abandon_with_message(m.clone()) }; info.hidden = matches!(f, Fin::Clear); }
                         BOp::FinishStyle => { pb.finish_using_style(); info.hidden = matches!(info.on_finish, Fin::Clear); }
-                        BOp::Adv(_) => {}
+                        BOp::Adv(_) | BOp::Iter(_) => {}
                         BOp::Drop => {
                             let (prefix, mut msg, mut pos, len, fin) = (pb.prefix(), pb.message(), pb.position(), pb.length(), pb.is_finished());
                             if !fin { match &info.on_finish { Fin::Leave => { if let Some(l) = len { pos = l } } Fin::Clear => { info.hidden = true; } Fin::Msg(m) => { if let Some(l) = len { pos = l }; msg = m.clone() } Fin::Abandon => {} Fin::AbandonMsg(m) => msg = m.clone() } }
@@ -222,7 +265,10 @@ pub fn run_case(c: &Case) -> (String, String) {
         // C02 (only without rate limiting and bottom alignment): below the log, every live bar that has been
         // drawn appears exactly once, in logical order; every other row is the final rendering of a dropped bar
         if rec.flushes() > flushes_before && !matches!(op, MOp::MpClear) { cleared_since_draw = false; lingering.clear(); }
-        if verdict == "ok" && c.hz == 0 && !bottom_used && !cleared_since_draw && checkable == logs.len() && rec.flushes() > 0 {
+        // with a rate-limited target the screen shows the last painted frame, so the frame is judged at the
+        // operations that painted one: every member's stored lines are refreshed by each of its draw requests,
+        // painted or not, hence a painted frame shows every bar's latest requested rendering
+        if verdict == "ok" && (c.hz == 0 || rec.flushes() > flushes_before) && !bottom_used && !cleared_since_draw && checkable == logs.len() && rec.flushes() > 0 {
             let region: Vec<String> = rows[at.min(rows.len())..].to_vec();
             let mut pos_of: Vec<(usize, usize, usize)> = Vec::new();  // (bar, start, len)
             let mut claimed = vec![false; region.len()];
@@ -248,7 +294,7 @@ pub fn run_case(c: &Case) -> (String, String) {
             }
         }
     }
-    if verdict == "ok" && c.hz == 0 && !bottom_used && !any_remove && !order_ambiguous && !cleared_since_draw && !disturbed_after_finish && bars.iter().all(|b| b.pb.is_none()) && !bars.is_empty() {
+    if verdict == "ok" && !bottom_used && !any_remove && !order_ambiguous && !cleared_since_draw && !disturbed_after_finish && bars.iter().all(|b| b.pb.is_none()) && !bars.is_empty() {
         let rows = rec.rows();
         let mut at = 0usize;
         for l in &logs { let chunks = wrap(l, w); if let Some(i) = (at..rows.len()).find(|&i| i + chunks.len() <= rows.len() && (0..chunks.len()).all(|j| rows[i + j] == chunks[j])) { at = i + chunks.len(); } }
@@ -274,7 +320,7 @@ pub fn run(seed: u64, tier: &str, out: &mut Out, bottom: bool) {
     let mut rng = Rng::new(seed);
     let n = if tier == "thorough" { 200_000 } else { 3_000 };
     for _ in 0..n {
-        let c = gen_case(&mut rng, bottom);
+        let c = if !bottom && rng.chance(1, 4) { gen_scenario(&mut rng) } else { gen_case(&mut rng, bottom) };
         let case = encode(&c);
         let (obs, verdict) = run_case(&c);
         out.emit(&case, &format!("{obs} ORACLE {verdict}"));
